@@ -241,14 +241,26 @@ class Gen:
         # arguments: one or two words written at 0x100
         pre = self.expr(1) + [("push", 0x100), "MSTORE", self.expr(1), ("push", 0x120), "MSTORE"]
         arglen = r.choice([0, 4, 32, 64])
-        retlen = r.choice([0, 32, 64])
+        retlen = r.choice([0, 32, 64, 33, 96])
+        if r.random() < 0.6:
+            # dirty output area: bytes beyond the returned data must survive the call
+            pre = pre + [("push", W - 1), ("push", 0x140), "MSTORE", ("push", r.randrange(1, W)), ("push", 0x160), "MSTORE",
+                         ("push", W - 1), ("push", 0x180), "MSTORE"]
+            self.count("call:dirty-ret-area")
         items = pre + [("push", retlen), ("push", 0x140), ("push", arglen), ("push", 0x100)] + value + target + [("push", 0xFFFF), kind]
         # success flag and first returned word into result slots
         items += [("push", 32 * r.randrange(6)), "MSTORE"]
         if r.random() < 0.6:
             items += [("push", 0x140), "MLOAD", ("push", 32 * r.randrange(6)), "MSTORE"]
+        if r.random() < 0.5:
+            items += [("push", r.choice([0x141, 0x15f, 0x160, 0x161, 0x180])), "MLOAD", ("push", 32 * r.randrange(6)), "MSTORE"]
         if r.random() < 0.4:
             items += ["RETURNDATASIZE", ("push", 32 * r.randrange(6)), "MSTORE"]
+        if r.random() < 0.35 and self.f.get("storage", True):
+            # read-modify-write right after the call: continuations of different callee paths must not see each other's write
+            sl = r.randrange(3)
+            items += [("push", 1), ("push", sl), "SLOAD", "ADD", ("push", sl), "SSTORE", ("push", sl), "SLOAD", ("push", 32 * r.randrange(6)), "MSTORE"]
+            self.count("call:post-write")
         return items
 
     def create_stmt(self):
@@ -350,12 +362,21 @@ class Gen:
             items += [("push", 32), ("push", 0x40), ("push", 32), ("push", 0)] + value + [("push", t), ("push", 0xFFFF), kind,
                       ("push", 0x60), "MSTORE"]
             self.count("callee:nested-" + kind)
+        if r.random() < 0.45:
+            # the callee itself branches on its (symbolic) argument: several callee paths per call, each with its own outcome
+            alt = self.fresh("calt")
+            first = r.choice([[("push", r.choice([0, 32])), ("push", 0), "REVERT"], ["INVALID"],
+                              [("push", 32), ("push", 0), "RETURN"], [("push", 9), ("push", 3), "SSTORE", ("push", 0), ("push", 0), "REVERT"]])
+            cond = [("push", 0), "CALLDATALOAD", ("push", r.choice([1, 3, 0xFF])), "AND"] if r.random() < 0.7 else \
+                   [("push", r.choice(self.consts) % W), ("push", 0), "CALLDATALOAD", r.choice(["LT", "EQ", "GT"])]
+            items += cond + ["ISZERO", ("ref", alt), "JUMPI"] + first + [("label", alt)]
+            self.count("callee:branching")
         k = r.random()
         if k < 0.55:
-            items += [("push", r.choice([32, 64, 128])), ("push", 0), "RETURN"]
+            items += [("push", r.choice([32, 64, 128, 1, 5, 31, 33])), ("push", 0), "RETURN"]
             self.count("callee:return")
         elif k < 0.75:
-            items += [("push", r.choice([0, 32, 64])), ("push", 0), "REVERT"]
+            items += [("push", r.choice([0, 32, 64, 1, 31])), ("push", 0), "REVERT"]
             self.count("callee:revert")
         elif k < 0.85:
             items += ["INVALID"]
